@@ -219,6 +219,7 @@ def run_scenario(sc):
                         except Exception as e:  # noqa: BLE001
                             net.ev("commit_ret", c=name, ok=False, exc=type(e).__name__)
                     elif kind == "subscribe":
+                        c.unsubscribe()
                         c.subscribe(op[1], listener=Listener(net, name, holder, cfg.get("cb_delay", 0)))
                         net.ev("subscribe", c=name, topics=op[1])
                     elif kind == "stop":
